@@ -12,9 +12,11 @@ import (
 
 // checkers maps a property id to its rule set.
 var checkers = map[string]func(r *Report){
+	"C01": checkC01,
 	"C05": checkC05,
 	"C06": checkC06,
 	"C07": checkC07,
+	"C12": checkC12,
 	"C17": checkC17,
 }
 
@@ -50,8 +52,12 @@ func main() {
 			repoRoot = os.Args[2]
 		}
 		p := loadResolve("", true)
+		debugHeap = os.Getenv("DBG_HEAP") != ""
 		e := runEffect(p)
 		fmt.Printf("functions %d passes %d globals %d sites %d srcCalls %d\n", len(p.Funcs), e.passes, len(e.globals), len(e.allSites), len(e.srcCalls))
+		if os.Getenv("DBG_GLOBALS") != "" {
+			debugHook(e)
+		}
 		for _, r := range e.sortedReports() {
 			fmt.Printf("%s: %s memory written in %s: %s (at %s in %s) via %q\n", p.pos(r.pos), r.origin, fnKey(r.fn), r.site.desc, p.pos(r.site.pos), fnKey(r.site.fn), r.via)
 		}
@@ -103,5 +109,13 @@ func main() {
 		os.Exit(r.finish(!*noEv))
 	default:
 		usage()
+	}
+}
+
+func init() {
+	debugHook = func(e *Effect) {
+		for i, g := range e.globals {
+			fmt.Printf("global %d %s : %s\n", i, g, g.Type())
+		}
 	}
 }
